@@ -44,10 +44,10 @@ CHECKS["C05"] = dict(
     text="Every problem text of the bounded generator and every single-point corruption of the base problems is parsed by the real ProblemParser; valid ones must be reproduced exactly (and still read the same after the next problem was parsed over the same Domain object), corrupted ones rejected - a confusion matrix by corruption kind instead of a few examples.",
     note=_REF, technique="bounded-exhaustive input enumeration + exhaustive single-point fault injection")
 CHECKS["C06"] = dict(
-    text="All labelled type forests up to the size bound under every regrouping and every permutation of their declaration lines are parsed; is_sub_type is compared with the reflexive-transitive closure on all pairs, and every use site (facts, fluents, constants, goals, forall conditions and effects) on all (object type, required type) pairs.",
+    text="All labelled type forests up to the size bound under every regrouping and every permutation of their declaration lines are parsed; is_sub_type is compared with the reflexive-transitive closure on all pairs, and every use site (facts, fluents, constants, goals, forall conditions and effects) on all (object type, required type) pairs; quantifier ranges also in a domain with one constant per type, under an empty object table and under one object per type, with and without every entity occurring in a root-typed fact.",
     note=_REF, technique="exhaustive enumeration of type forests x declaration orders x type pairs")
 CHECKS["C07"] = dict(
-    text="Explicit-state BFS over API event histories on the real objects (worlds rebuilt by replay, de-duplicated on a canonical digest) with a purity invariant evaluated in every world, plus a cooperative scheduler that runs two real threads over the shared domain under every single pre-emption at every library source line: the two places where impurity needs a specific history or interleaving to show.",
+    text="Explicit-state BFS over API event histories on the real objects (worlds rebuilt by replay, de-duplicated on a canonical digest) with a purity invariant evaluated in every world, plus a cooperative scheduler that runs two real threads over the shared domain under every single pre-emption at every library source line; plus one Operator built without an object table driven through every 2-3 event history over 32 states, each answer against a fresh operator: the places where impurity needs a specific history or interleaving to show.",
     note=_REF + "; scheduling points are library source lines (sys.settrace), the GIL makes single dict operations atomic", technique="explicit-state BFS over event histories with invariant checking + preemption-bounded exhaustive thread-schedule exploration of the real code",
     engine="pv.runner + pv.threadsched")
 CHECKS["C09"] = dict(
@@ -63,13 +63,13 @@ CHECKS["C12"] = dict(
     text="Every binary expression tree up to the node bound is evaluated on every valuation of a rational grid, directly and through one-condition / one-effect actions, against exact Fraction arithmetic; comparison truth is checked at 0, 1/2, ~1 and 2 tolerances apart at several magnitudes under three EPSILON configurations and printing under three NUMERIC_PRECISION configurations, each configuration in its own interpreter.",
     note=_REF + "; configurations are separate subprocesses (pv.c12_worker)", technique="bounded-exhaustive expression x valuation enumeration + exhaustive enumeration of the configuration space")
 CHECKS["C15"] = dict(
-    text="ALL valid sequential plans up to the length bound (BFS over applicable actions, replacing random walks) over three multi-agent mini-domains are converted by the real PlanConverter in two file layouts with and without the concurrency constraint; the joint plan is checked for action preservation, per-agent order, slot layout, member applicability, semantic non-interference and final state under the reference interpreter.",
+    text="ALL valid sequential plans up to the length bound (BFS over applicable actions, replacing random walks) over the multi-agent mini-domains (incl. one whose actions do not name the agent first) are converted by the real PlanConverter in two file layouts with and without the concurrency constraint; the joint plan is checked for action preservation, per-agent order, slot layout, member applicability, semantic non-interference and final state under the reference interpreter.",
     note=_REF + "; one recorded finding (KF-C15-1: interference through atoms is not detected)", technique="exhaustive enumeration of valid operation sequences up to a depth bound, reference-interpreter oracle")
 CHECKS["C16"] = dict(
-    text="Every joint action (one call or nop per agent) x every state of the members' joint relevant universe x every slot permutation is applied by the real apply_actions and compared with sequential reference application (defined only for semantically non-interfering members); refusal and the allow switch on every exactly-one-inapplicable case (and on every all-applicable case, where it must change nothing); exported joint trajectories of all 1-2 step joint plans incl. all-idle steps and parameterless members, strict / lenient / strict on one exporter.",
+    text="Every joint action (one call or nop per agent, and every call listed in two slots) x every state of the members' joint relevant universe x every slot permutation is applied by the real apply_actions and compared with sequential reference application (defined only for semantically non-interfering members); refusal and the allow switch on every exactly-one-inapplicable case (and on every all-applicable case, where it must change nothing); exported joint trajectories of all 1-2 step joint plans incl. all-idle steps and parameterless members, strict / lenient / strict on one exporter.",
     note=_REF, technique="bounded-exhaustive joint-action x state x member-order enumeration, reference-model oracle")
 CHECKS["C17"] = dict(
-    text="All splits of a base domain and problem into overlapping per-agent files x every discovery order (Path.glob seam) x dummy-action switch are combined by the real converters; the combination is compared with the set union, re-exported and re-parsed, and the purity of Domain() defaults and of earlier / later parsed domains is checked after every combination.",
+    text="All splits of a base domain and problem into overlapping per-agent files x every discovery order (Path.glob seam) x dummy-action switch are combined by the real converters; the combination is compared with the set union, re-exported and re-parsed, and the purity of Domain() defaults and of earlier / later parsed domains is checked after every combination; shared goals and facts listed by the two agents in every pair of relative orders are combined exactly once.",
     note=_REF + "; Path.glob is patched on the harness side to enumerate discovery orders", technique="exhaustive enumeration of file splits x discovery orders (environment-order schedules)")
 CHECKS["C19"] = dict(
     text="A 145-plan family (step counts at every digit-width boundary x rotations of a (name, arity) alphabet) is rendered as Metric-FF logs under every header x trailer and every layout with <= D deviations, as no-plan logs, and as ENHSP files; status, returned steps and written plan file are compared with the generating plan.",
